@@ -82,7 +82,7 @@ theorem flatten_ne_nil (p : Params K) (pv : p.Valid) :
     intro n hs
     cases n with
     | leaf es =>
-      simp only [Shape, Params.leafMin] at hs
+      simp only [Shape, Params.leafMin, Gen.leafSlotmin] at hs
       simp only [flatten]
       intro he; subst he; simp at hs; omega
     | inner l ks kids => simp [Shape] at hs
